@@ -530,6 +530,31 @@ def _load_atoms(t, p):
     """(force, changed, updated, existing, overwrite) polarities on a path
     (None = not decided on the path)."""
     force = changed = updated = existing = overwrite = None
+    # the list(s) the located directories are collected in: displays that
+    # receive the result of the path lookup somewhere (told apart from any
+    # other local list by where they are written)
+    acc_lines = t.__dict__.get('_dir_acc_lines')
+    if acc_lines is None:
+        acc_lines = set()
+        gp = t.roles.get_path
+        for q in t.paths:
+            for e in q.events:
+                if e.kind == 'call' and method_call(e.node, 'append') and \
+                        e.node.args:
+                    recv = method_call(e.node)[0]
+                    a0 = t.expand(e.node.args[0])
+                    if isinstance(recv, ast.Name) and isinstance(
+                            t.en.defs.get(recv.id), ast.List) and \
+                            isinstance(a0, ast.Call) and t.prog.callee_of(
+                                t.prog.functions.get(e.frame,
+                                                     t.roles.load_body),
+                                a0) is gp:
+                        acc_lines.add(getattr(t.en.defs[recv.id], 'lineno',
+                                              None))
+        t.__dict__['_dir_acc_lines'] = acc_lines
+
+    def is_acc(d):
+        return not acc_lines or getattr(d, 'lineno', None) in acc_lines
     for c in p.conds:
         if c.kind != 'test':
             continue
@@ -550,14 +575,15 @@ def _load_atoms(t, p):
                 elif g is t.roles.dir_updated:
                     updated = c.pol if updated is None else (updated
                                                              or c.pol)
-            elif isinstance(d, ast.List):
+            elif isinstance(d, ast.List) and is_acc(d):
                 existing = c.pol
     if existing is None:
         for e in p.events:
             if e.kind == 'call' and method_call(e.node, 'append'):
                 recv = method_call(e.node)[0]
                 if isinstance(recv, ast.Name) and isinstance(
-                        t.en.defs.get(recv.id), ast.List):
+                        t.en.defs.get(recv.id), ast.List) and is_acc(
+                            t.en.defs[recv.id]):
                     existing = True
     return force, changed, updated, existing, overwrite
 
